@@ -195,6 +195,7 @@ var Corruptions = func() []Corruption {
 		Corruption{"event-tags-string", isEv, evField("tags", constJ(JStr("[]")))},
 		Corruption{"event-tags-member-string", isEv, evField("tags", constJ(JArr{JStr("e")}))},
 		Corruption{"event-tag-element-number", isEv, evField("tags", constJ(JArr{JArr{JStr("e"), JRaw("1")}}))},
+		Corruption{"event-tags-element-null", isEv, evField("tags", constJ(JArr{JRaw("null"), JArr{JStr("t"), JStr("x")}}))},
 		Corruption{"event-tag-element-null", isEv, evField("tags", constJ(JArr{JArr{JStr("e"), JRaw("null")}}))},
 		// filters
 		Corruption{"filter-not-object", isFil, func(t *rapid.T, m *WireMsg) JArr {
